@@ -2110,4 +2110,392 @@ theorem sg_addseg_core {s s' : St} (hi : SInv s)
         · omega
         · rw [u5] at h; cases h
 
+/-! ## 10. `sys-prepend`: a segment grows at its start -/
+
+theorem sg_replaceSeg_split {l1 l2 : List Seg} {old new : Seg} (h : old ∉ l1) :
+    replaceSeg (l1 ++ old :: l2) old new = l1 ++ new :: l2 := by
+  induction l1 with
+  | nil => simp [replaceSeg]
+  | cons a r ih =>
+    have ha : a ≠ old := fun h' => h (h' ▸ List.mem_cons_self)
+    have hr : old ∉ r := fun h' => h (List.mem_cons_of_mem _ h')
+    simp only [List.cons_append, replaceSeg, if_neg ha, ih hr]
+
+theorem sg_split_first {l : List Seg} {g : Seg} (h : g ∈ l) : ∃ l1 l2, l = l1 ++ g :: l2 ∧ g ∉ l1 := by
+  induction l with
+  | nil => cases h
+  | cons a r ih =>
+    by_cases hag : a = g
+    · exact ⟨[], r, by rw [hag]; rfl, by simp⟩
+    · have hr : g ∈ r := by
+        rcases List.mem_cons.1 h with h | h
+        · exact absurd h.symm hag
+        · exact h
+      obtain ⟨l1, l2, h1, h2⟩ := ih hr
+      refine ⟨a :: l1, l2, by rw [h1]; rfl, ?_⟩
+      intro hm
+      rcases List.mem_cons.1 hm with hm | hm
+      · exact hag hm.symm
+      · exact h2 hm
+
+/-- the first header of a segment: it sits at the segment base and has PINUSE set -/
+theorem sg_first_entry {s : St} (w : WFS s) {g : Seg} (hg : g ∈ s.segs) :
+    ∃ e T, segEnts s.h.ents g = e :: T ∧ e ∈ s.h.ents ∧ e.addr = g.base ∧ e.pin = true := by
+  have ht := w.struct.tiles_of hg
+  have hta := w.struct.tags_of hg
+  cases hs : segEnts s.h.ents g with
+  | nil => rw [hs] at ht; simp [tiles] at ht
+  | cons e T =>
+    rw [hs] at ht hta
+    have hm : e ∈ segEnts s.h.ents g := by rw [hs]; exact List.mem_cons_self
+    refine ⟨e, T, rfl, (mem_segEnts.1 hm).1, tiles_head_addr ht, ?_⟩
+    rw [tagsOk_cons_iff] at hta
+    exact hta.1
+
+/-- **the segment `sq` extended downwards by a fresh mapping**, with two in-use chunks `P` (the request) and
+`Q` (the rest of the mapping) in front of its old first header: the invariant holds, the user chunks are the
+old ones plus `P` and `Q`.  (`sys-prepend` = this state followed by freeing `Q`.) -/
+theorem sg_prepend_mid {s I : St} (hi : SInv s) {l1 l2 : List Seg} {sq : Seg}
+    (hsegs : s.segs = l1 ++ sq :: l2)
+    {tbase tsize nb : Nat} (hfr : ∀ g ∈ s.segs, tbase + tsize ≤ g.base ∨ g.base + g.size ≤ tbase)
+    (hsqb : sq.base = tbase + tsize)
+    (hpage : tbase % 4096 = 0) (hpos : 0 < tbase) (hts : tsize % 4096 = 0)
+    (hnb16 : nb % 16 = 0) (hnb32 : 32 ≤ nb) (hsz : nb + 96 ≤ tsize)
+    {P Q : Ent} (P1 : P.addr = tbase) (P2 : P.size = nb) (P3 : P.cin = true) (P4 : P.pin = true)
+    (Q1 : Q.addr = tbase + nb) (Q2 : Q.size = tsize - nb) (Q3 : Q.cin = true) (Q4 : Q.pin = true)
+    (hokI : entsOk I.h.ents = true) (hmemI : ∀ z, z ∈ I.h.ents ↔ z = P ∨ z = Q ∨ z ∈ s.h.ents)
+    (hsegsI : I.segs = l1 ++ { sq with base := tbase, size := sq.size + tsize } :: l2)
+    (hsb : I.h.sbins = s.h.sbins) (htb : I.h.tbins = s.h.tbins) (hdv : I.h.dv = s.h.dv)
+    (hdvs : I.h.dvsize = s.h.dvsize) (htop : I.h.top = s.h.top) (htops : I.h.topsize = s.h.topsize)
+    (hla : I.least_addr ≤ tbase ∧ I.least_addr ≤ s.least_addr) :
+    SInv I ∧ (∀ a z, User I a z ↔ (User s a z ∨ (a = tbase ∧ z = nb) ∨ (a = tbase + nb ∧ z = tsize - nb))) ∧
+      ∃ eo, findEnt I.h.ents sq.base = some eo ∧ eo ∈ s.h.ents ∧ eo.pin = true := by
+  have w := hi.wfs
+  have hsqm : sq ∈ s.segs := by rw [hsegs]; simp
+  have hothers : ∀ g, g ∈ l1 ∨ g ∈ l2 → g ∈ s.segs := by
+    intro g hg; rw [hsegs]; rcases hg with h | h <;> simp [h]
+  have hsg := w.segs
+  unfold segsOk at hsg
+  simp only [Bool.and_eq_true, List.all_eq_true, decide_eq_true_eq, top_foot_size_eq] at hsg
+  have hsqz := hsg.2 sq hsqm
+  have hdis := sg_disjoint_of_split (hsegs ▸ w.segsDisjoint)
+  have hfresh := sg_fresh_ents w hfr
+  have hpos0 := entsOk_pos w.ents
+  obtain ⟨eo, T, hsqe, heom, heoa, heop⟩ := sg_first_entry w hsqm
+  -- membership
+  have hPm : P ∈ I.h.ents := (hmemI P).2 (Or.inl rfl)
+  have hQm : Q ∈ I.h.ents := (hmemI Q).2 (Or.inr (Or.inl rfl))
+  have hOm : ∀ z ∈ s.h.ents, z ∈ I.h.ents := fun z hz => (hmemI z).2 (Or.inr (Or.inr hz))
+  have hfind : ∀ z ∈ s.h.ents, findEnt I.h.ents z.addr = findEnt s.h.ents z.addr := by
+    intro z hz; rw [entsOk_find z (hOm z hz) hokI, entsOk_find z hz w.ents]
+  have hfind' : ∀ a, (∃ z ∈ s.h.ents, z.addr = a) → findEnt I.h.ents a = findEnt s.h.ents a := by
+    rintro a ⟨z, hz, rfl⟩; exact hfind z hz
+  have hold_out : ∀ z ∈ s.h.ents, z.addr + z.size ≤ tbase ∨ tbase + tsize ≤ z.addr := hfresh
+  -- the segments
+  have hsq'in : ∀ z, inSeg { sq with base := tbase, size := sq.size + tsize } z = true ↔
+      (tbase ≤ z.addr ∧ z.addr < sq.base + sq.size) := by
+    intro z; rw [inSeg_iff]; simp only; omega
+  have hPQ_other : ∀ g, g ∈ l1 ∨ g ∈ l2 → inSeg g P = false ∧ inSeg g Q = false := by
+    intro g hg
+    have := hfr g (hothers g hg)
+    constructor
+    · cases h : inSeg g P with
+      | false => rfl
+      | true => rw [inSeg_iff] at h; omega
+    · cases h : inSeg g Q with
+      | false => rfl
+      | true => rw [inSeg_iff] at h; omega
+  have hseg_other : ∀ g, g ∈ l1 ∨ g ∈ l2 → segEnts I.h.ents g = segEnts s.h.ents g := by
+    intro g hg
+    refine sg_segEnts_eq hokI (sg_entsOk_filter w.ents _) ?_
+    intro z
+    rw [mem_segEnts]
+    constructor
+    · rintro ⟨h1, h2⟩; exact ⟨hOm z h1, h2⟩
+    · rintro ⟨h1, h2⟩
+      rcases (hmemI z).1 h1 with h | h | h
+      · rw [h, (hPQ_other g hg).1] at h2; cases h2
+      · rw [h, (hPQ_other g hg).2] at h2; cases h2
+      · exact ⟨h, h2⟩
+  have hsq_ok : entsOk (P :: Q :: eo :: T) = true := by
+    have h0 : entsOk (eo :: T) = true := by rw [← hsqe]; exact sg_entsOk_filter w.ents _
+    have h1 : entsOk (Q :: eo :: T) = true := by
+      simp only [entsOk, Bool.and_eq_true, decide_eq_true_eq]
+      exact ⟨⟨by omega, by omega⟩, h0⟩
+    simp only [entsOk, Bool.and_eq_true, decide_eq_true_eq] at h1 ⊢
+    exact ⟨⟨by omega, by omega⟩, h1⟩
+  have hseg_sq : segEnts I.h.ents { sq with base := tbase, size := sq.size + tsize } = P :: Q :: eo :: T := by
+    refine sg_segEnts_eq hokI hsq_ok ?_
+    intro z
+    rw [hsq'in z]
+    have hT : z ∈ eo :: T ↔ z ∈ s.h.ents ∧ inSeg sq z = true := by rw [← hsqe]; exact mem_segEnts
+    simp only [List.mem_cons] at hT ⊢
+    constructor
+    · rintro (h | h | h)
+      · subst h; exact ⟨hPm, by omega⟩
+      · subst h; exact ⟨hQm, by omega⟩
+      · have := hT.1 h
+        have hin := inSeg_iff.1 this.2
+        exact ⟨hOm z this.1, by omega⟩
+    · rintro ⟨h1, h2⟩
+      rcases (hmemI z).1 h1 with h | h | h
+      · exact Or.inl h
+      · exact Or.inr (Or.inl h)
+      · right; right
+        refine hT.2 ⟨h, ?_⟩
+        have := hpos0 z h
+        rw [inSeg_iff]
+        rcases hfresh z h with h' | h' <;> omega
+  have hrecs : I.segs.map (·.recAt) = s.segs.map (·.recAt) := by rw [hsegsI, hsegs]; simp
+  have hnoP : ∀ z ∈ s.h.ents, z.addr ≠ tbase ∧ z.addr ≠ tbase + nb := by
+    intro z hz
+    have := hpos0 z hz
+    rcases hfresh z hz with h | h <;> omega
+  have hrecP : ∀ e : Ent, (e.addr = tbase ∨ e.addr = tbase + nb) → isRecord s.segs e = false := by
+    intro e he
+    rw [sg_isRecord_false]
+    intro g hg hga
+    obtain ⟨_, e2, he2, _⟩ := hi.recs g hg (by omega)
+    obtain ⟨hm2, ha2⟩ := findEnt_some he2
+    have := hnoP e2 hm2
+    omega
+  have hfl : Dl.freeList I.h = Dl.freeList s.h := by unfold Dl.freeList binned; rw [htop, hdv, hsb, htb]
+  have hbinfind : ∀ a ∈ Dl.freeList s.h, findEnt I.h.ents a = findEnt s.h.ents a := by
+    intro a ha
+    obtain ⟨e, he, hea⟩ := w.freeList_entry ha
+    exact hfind' a ⟨e, he, hea⟩
+  have hsegI_mem : ∀ g, g ∈ I.segs ↔ g = { sq with base := tbase, size := sq.size + tsize } ∨ g ∈ l1 ∨ g ∈ l2 := by
+    intro g; rw [hsegsI]; simp only [List.mem_append, List.mem_cons]
+    constructor
+    · rintro (h | h | h)
+      · exact Or.inr (Or.inl h)
+      · exact Or.inl h
+      · exact Or.inr (Or.inr h)
+    · rintro (h | h | h)
+      · exact Or.inr (Or.inl h)
+      · exact Or.inl h
+      · exact Or.inr (Or.inr h)
+  refine ⟨⟨⟨hokI, ?_, ?_, ?_, ?_, ?_, ?_, ?_, ?_, ?_, ?_⟩, ?_, ?_, ?_, ?_, ?_⟩, ?_, ?_⟩
+  · -- shapeOk
+    unfold shapeOk
+    rw [List.all_eq_true]
+    intro z hz
+    rcases (hmemI z).1 hz with h | h | h
+    · subst h; simp only [Bool.or_eq_true, Bool.and_eq_true, decide_eq_true_eq]; right; omega
+    · subst h; simp only [Bool.or_eq_true, Bool.and_eq_true, decide_eq_true_eq]; right; omega
+    · have := w.shape; unfold shapeOk at this; exact List.all_eq_true.1 this z h
+  · -- allInSegs
+    simp only [List.all_eq_true, List.any_eq_true]
+    intro z hz
+    rcases (hmemI z).1 hz with h | h | h
+    · exact ⟨_, (hsegI_mem _).2 (Or.inl rfl), (hsq'in z).2 (by subst h; omega)⟩
+    · exact ⟨_, (hsegI_mem _).2 (Or.inl rfl), (hsq'in z).2 (by subst h; omega)⟩
+    · obtain ⟨g, hg, hge⟩ := w.struct.seg_of h
+      rw [hsegs] at hg
+      simp only [List.mem_append, List.mem_cons] at hg
+      rcases hg with hg | hg | hg
+      · exact ⟨g, (hsegI_mem g).2 (Or.inr (Or.inl hg)), hge⟩
+      · subst hg
+        refine ⟨_, (hsegI_mem _).2 (Or.inl rfl), (hsq'in z).2 ?_⟩
+        rw [inSeg_iff] at hge; omega
+      · exact ⟨g, (hsegI_mem g).2 (Or.inr (Or.inr hg)), hge⟩
+  · -- tiles
+    simp only [List.all_eq_true]
+    intro g hg
+    rcases (hsegI_mem g).1 hg with h | h
+    · subst h
+      rw [hseg_sq]
+      have ht := w.struct.tiles_of hsqm
+      rw [hsqe] at ht
+      have h8 : 8 ≤ eo.size := shapeOk_size w.shape heom
+      simp only [tiles, Bool.and_eq_true, decide_eq_true_eq]
+      refine ⟨⟨P1, by omega⟩, ⟨by omega, h8⟩, ?_⟩
+      rw [show tbase + P.size + Q.size = sq.base by omega, show tbase + (sq.size + tsize) = sq.base + sq.size by omega]
+      exact ht
+    · rw [hseg_other g h]; exact w.struct.tiles_of (hothers g h)
+  · -- tagsOk
+    rw [htop]
+    simp only [List.all_eq_true]
+    intro g hg
+    rcases (hsegI_mem g).1 hg with h | h
+    · subst h
+      rw [hseg_sq]
+      have ht := w.struct.tags_of hsqm
+      rw [hsqe] at ht
+      simp only [tagsOk, isFree, P3, P4, Q3, Q4, Bool.not_true, Bool.false_and, Bool.and_true, beq_self_eq_true,
+        Bool.true_and, if_false, Bool.false_eq_true]
+      exact ht
+    · rw [hseg_other g h]; exact w.struct.tags_of (hothers g h)
+  · -- freeListOk
+    rw [freeListOk_iff, hfl]
+    obtain ⟨f1, f2, f3⟩ := (freeListOk_iff s.h).1 w.freeList
+    refine ⟨f1, ?_, ?_⟩
+    · intro e he hf
+      rcases (hmemI e).1 he with h | h | h
+      · rw [h] at hf; simp [isFree, P3] at hf
+      · rw [h] at hf; simp [isFree, Q3] at hf
+      · exact f2 e h hf
+    · intro a ha
+      rw [isFreeAt_frame (hbinfind a ha)]; exact f3 a ha
+  · -- sbins
+    have := sbinsOk_frame (h := s.h) (h' := I.h) w.sbins hsb (fun a ha => hbinfind a
+      (mem_freeList_of_binned (List.mem_append.2 (Or.inl ha))))
+    exact this
+  · -- tbins
+    have := tbinsOk_frame (h := s.h) (h' := I.h) w.tbins htb (fun a ha => hbinfind a
+      (mem_freeList_of_binned (List.mem_append.2 (Or.inr ha))))
+    exact this
+  · -- dvOk
+    by_cases h0 : s.h.dv = 0
+    · have hd := w.dv
+      unfold dvOk at hd ⊢
+      rw [hdv, hdvs, if_pos h0]; rw [if_pos h0] at hd; exact hd
+    · rw [dvOk_frame hdv hdvs (hbinfind s.h.dv (by rw [mem_freeList]; exact Or.inr (Or.inl ⟨h0, rfl⟩)))]
+      exact w.dv
+  · -- topOk
+    have ht := w.top
+    unfold topOk at ht ⊢
+    rw [htop, htops]
+    cases hl1 : l1 with
+    | nil =>
+      rw [hl1] at hsegs hsegsI
+      simp only [List.nil_append] at hsegs hsegsI
+      rw [hsegs] at ht
+      rw [hsegsI]
+      simp only [Bool.and_eq_true, decide_eq_true_eq] at ht ⊢
+      obtain ⟨⟨⟨⟨⟨⟨t1, t2⟩, t3⟩, t4⟩, t5⟩, t6⟩, t7⟩ := ht
+      have e1 : findEnt I.h.ents s.h.top = findEnt s.h.ents s.h.top := by
+        apply hfind'
+        cases hf : findEnt s.h.ents s.h.top with
+        | none => rw [hf] at t6; cases t6
+        | some e => exact ⟨e, (findEnt_some hf).1, (findEnt_some hf).2⟩
+      have e2 : findEnt I.h.ents (s.h.top + s.h.topsize) = findEnt s.h.ents (s.h.top + s.h.topsize) := by
+        apply hfind'
+        cases hf : findEnt s.h.ents (s.h.top + s.h.topsize) with
+        | none => rw [hf] at t7; cases t7
+        | some e => exact ⟨e, (findEnt_some hf).1, (findEnt_some hf).2⟩
+      rw [e1, e2]
+      exact ⟨⟨⟨⟨⟨⟨t1, t2⟩, by omega⟩, by omega⟩, t5⟩, t6⟩, t7⟩
+    | cons g0 l1' =>
+      rw [hl1] at hsegs hsegsI
+      simp only [List.cons_append] at hsegs hsegsI
+      rw [hsegs] at ht
+      rw [hsegsI]
+      simp only [Bool.and_eq_true, decide_eq_true_eq] at ht ⊢
+      obtain ⟨⟨⟨⟨⟨⟨t1, t2⟩, t3⟩, t4⟩, t5⟩, t6⟩, t7⟩ := ht
+      have e1 : findEnt I.h.ents s.h.top = findEnt s.h.ents s.h.top := by
+        apply hfind'
+        cases hf : findEnt s.h.ents s.h.top with
+        | none => rw [hf] at t6; cases t6
+        | some e => exact ⟨e, (findEnt_some hf).1, (findEnt_some hf).2⟩
+      have e2 : findEnt I.h.ents (s.h.top + s.h.topsize) = findEnt s.h.ents (s.h.top + s.h.topsize) := by
+        apply hfind'
+        cases hf : findEnt s.h.ents (s.h.top + s.h.topsize) with
+        | none => rw [hf] at t7; cases t7
+        | some e => exact ⟨e, (findEnt_some hf).1, (findEnt_some hf).2⟩
+      rw [e1, e2]
+      exact ⟨⟨⟨⟨⟨⟨t1, t2⟩, t3⟩, t4⟩, t5⟩, t6⟩, t7⟩
+  · -- segsOk
+    unfold segsOk
+    simp only [Bool.and_eq_true, List.all_eq_true, decide_eq_true_eq, top_foot_size_eq]
+    constructor
+    · rw [hsegsI, sg_segsDisjoint_iff, List.pairwise_append]
+      have hd0 := w.segsDisjoint
+      rw [hsegs, sg_segsDisjoint_iff, List.pairwise_append] at hd0
+      obtain ⟨a1, a2, a3⟩ := hd0
+      obtain ⟨b1, b2⟩ := List.pairwise_cons.1 a2
+      refine ⟨a1, List.pairwise_cons.2 ⟨?_, b2⟩, ?_⟩
+      · intro g hg
+        have := b1 g hg
+        have := hfr g (hothers g (Or.inr hg))
+        have := (hsg.2 g (hothers g (Or.inr hg)))
+        simp only; omega
+      · intro a ha b hb
+        rcases List.mem_cons.1 hb with hb | hb
+        · subst hb
+          have := a3 a ha sq List.mem_cons_self
+          have := hfr a (hothers a (Or.inl ha))
+          have := (hsg.2 a (hothers a (Or.inl ha)))
+          simp only; omega
+        · exact a3 a ha b (List.mem_cons_of_mem _ hb)
+    · intro g hg
+      rcases (hsegI_mem g).1 hg with h | h
+      · subst h; simp only; omega
+      · have := hsg.2 g (hothers g h); omega
+  · -- RecsOk
+    intro g hg hne
+    have hg' : ∃ g1 ∈ s.segs, g1.recAt = g.recAt := by
+      rcases (hsegI_mem g).1 hg with h | h
+      · exact ⟨sq, hsqm, by rw [h]⟩
+      · exact ⟨g, hothers g h, rfl⟩
+    obtain ⟨g1, hg1, hr1⟩ := hg'
+    obtain ⟨h16, e, he, hc⟩ := hi.recs g1 hg1 (by omega)
+    rw [hr1] at h16 he
+    obtain ⟨hm, ha⟩ := findEnt_some he
+    exact ⟨h16, e, by rw [← ha, hfind e hm]; exact entsOk_find e hm w.ents, hc⟩
+  · -- FenceOk
+    rw [sg_fenceOk_iff_tab hokI]
+    have hold := (sg_fenceOk_iff_tab w.ents).1 hi.fence
+    intro a ha b hb h8 hadj
+    rw [sg_isRecord_congr hrecs]
+    rcases (hmemI b).1 hb with hb | hb | hb
+    · rw [hb, P2] at h8; omega
+    · rw [hb, Q2] at h8; omega
+    · rcases (hmemI a).1 ha with ha | ha | ha
+      · exfalso; rw [ha, P1, P2] at hadj; exact (hnoP b hb).2 hadj
+      · exfalso
+        rw [ha, Q1, Q2] at hadj
+        exact hi.head sq hsqm b hb (by omega) h8
+      · exact hold a ha b hb h8 hadj
+  · -- TailOk
+    intro g hg hne e he hge
+    rw [sg_isRecord_congr hrecs]
+    rcases (hsegI_mem g).1 hg with h | h
+    · subst h
+      rcases (hmemI e).1 he with h | h | h
+      · right; right; simp only; rw [h, P1, P2]; omega
+      · right; right; simp only; rw [h, Q1, Q2]; omega
+      · have hin : inSeg sq e = true := by
+          have := (hsq'in e).1 hge
+          have := hpos0 e h
+          rw [inSeg_iff]
+          rcases hfresh e h with h' | h' <;> omega
+        rcases hi.tail sq hsqm hne e h hin with h1 | h1 | h1
+        · exact Or.inl h1
+        · exact Or.inr (Or.inl h1)
+        · right; right; simp only; omega
+    · rcases (hmemI e).1 he with h' | h' | h'
+      · rw [h', (hPQ_other g h).1] at hge; cases hge
+      · rw [h', (hPQ_other g h).2] at hge; cases hge
+      · exact hi.tail g (hothers g h) hne e h' hge
+  · -- HeadOk
+    intro g hg e he hb
+    rcases (hmemI e).1 he with h | h | h
+    · rw [h, P2]; omega
+    · rw [h, Q2]; omega
+    · rcases (hsegI_mem g).1 hg with h' | h'
+      · exfalso; subst h'; simp only at hb; exact (hnoP e h).1 hb
+      · exact hi.head g (hothers g h') e h hb
+  · -- RecIn
+    intro g hg hne
+    rcases (hsegI_mem g).1 hg with h | h
+    · subst h
+      have := hi.recin sq hsqm hne
+      simp only; omega
+    · exact hi.recin g (hothers g h) hne
+  · -- users
+    intro a z
+    rw [sg_user_iff_mem hokI, sg_user_iff_mem w.ents]
+    constructor
+    · rintro ⟨e, he, u1, u2, u3, u4, u5⟩
+      rcases (hmemI e).1 he with h | h | h
+      · right; left; subst h; exact ⟨by omega, by omega⟩
+      · right; right; subst h; exact ⟨by omega, by omega⟩
+      · left; exact ⟨e, h, u1, u2, u3, u4, by rw [← sg_isRecord_congr hrecs]; exact u5⟩
+    · rintro (⟨e, he, u1, u2, u3, u4, u5⟩ | ⟨h1, h2⟩ | ⟨h1, h2⟩)
+      · exact ⟨e, hOm e he, u1, u2, u3, u4, by rw [sg_isRecord_congr hrecs]; exact u5⟩
+      · exact ⟨P, hPm, by omega, P3, by omega, by omega, by rw [sg_isRecord_congr hrecs]; exact hrecP P (Or.inl P1)⟩
+      · exact ⟨Q, hQm, by omega, Q3, by omega, by omega, by rw [sg_isRecord_congr hrecs]; exact hrecP Q (Or.inr Q1)⟩
+  · exact ⟨eo, by rw [← heoa, hfind eo heom]; exact entsOk_find eo heom w.ents, heom, heop⟩
+
 end TinyVerif.Dl
